@@ -107,3 +107,6 @@ def consume(run, P):
 def ownraw(run, P):
     from rules import r_ownraw
     r_ownraw.run(run, P)
+def width_call(run, P):
+    from rules import r_width
+    r_width.run_d(run, P, units=None)
